@@ -254,8 +254,10 @@ fn exec_src(src: &str) -> Option<(String, String, Option<String>, bool)> {
 // macros with call-free bodies matter: `format!` & co. evaluate their arguments (Display on a signal is a
 // tracked read; `{x}` captures live inside the string literal), whatever the tokens look like
 const LEAVES: &[&str] = &["1", "\"s\"", "x", "a::b", "f()", "x.m()", "|y| f(y)", "move || g(1)", "view! { p { (f()) } }", "vec![f()]", "x.y", "self.0",
-    "format!(\"{x}\")", "format!(\"{}\", x)", "println!(\"{}\", x)", "vec![x]", "std::format!(\"{x}\")", "matches!(x, 1)"];
-const LEAVES_SMALL: &[&str] = &["1", "x", "f()", "|y| f(y)", "view! { (f()) }", "m!(f())", "format!(\"{x}\")", "m!(x)"];
+    "format!(\"{x}\")", "format!(\"{}\", x)", "println!(\"{}\", x)", "vec![x]", "std::format!(\"{x}\")", "matches!(x, 1)",
+    // callees that LOOK like types or constructors are calls all the same (components are UpperCamelCase functions)
+    "Label(x)", "Total()", "m::Widget(x, 1)", "Some(x)", "Color::Rgb(1, 2, x)", "Self::New(x)"];
+const LEAVES_SMALL: &[&str] = &["1", "x", "f()", "|y| f(y)", "view! { (f()) }", "m!(f())", "format!(\"{x}\")", "m!(x)", "Label(x)"];
 const PATS: &[&str] = &["_", "1", "x", "ref mut x", "mut x", "ref x", "x @ {P}", "A::B", "({P})", "{P} | {P}", "({P}, {P})", "({P}, ..)", "T({P})",
     "[{P}, ..]", "S { a: {P} }", "S { a, .. }", "1..=2", "&{P}", "&mut {P}", "m!()", "view!()", "const { 1 }", "-1", "None"];
 const EXPRS: &[&str] = &[
@@ -265,7 +267,7 @@ const EXPRS: &[&str] = &[
     "if let {P} = {E} { {S} }", "match {E} { {P} => {E}, }", "match {E} { {P} if {E} => {E}, _ => {E} }", "match {E} { {P} => { {S} } }",
     "if {E} { {S} }", "if {E} { {S} } else { {S} }", "if {E} { {E} } else if {E} { {E} } else { {E} }", "-{E}", "!{E}", "*{E}",
     "{E} + {E}", "{E} && {E}", "{E} += {E}", "{E} == {E}", "{E}[{E}]", "{E}..{E}", "..{E}", "{E}..", "..", "{E}..={E}",
-    "{E}({E})", "{E}.m({E})", "{E}.await", "{E}?", "{E} = {E}", "&{E}", "&mut {E}", "&raw const {E}", "return {E}", "return",
+    "{E}({E})", "Foo({E})", "a::Bar({E}, 1)", "{E}.m({E})", "{E}.await", "{E}?", "{E} = {E}", "&{E}", "&mut {E}", "&raw const {E}", "return {E}", "return",
     "async { {S} }", "async move { {E} }", "unsafe { {S} }", "|x| {E}", "move |x: u8| { {S} }", "m!({E})", "format!(\"{}\", {E})", "view! { p { ({E}) } }", "x::<{ N }>",
     "{E} as [u8; 3]", "#[a] {E}",
 ];
